@@ -673,4 +673,175 @@ theorem b91_length (bs : List Nat) :
       simp only [List.length_cons]; omega
 
 
+/-! ### basE91 round trip: simulation of the decoder on the encoder's output.
+    Invariant: encoder holds `nb ≤ 13` pending bits `q`, decoder holds `dn ≤ 7` pending bits `dq`,
+    `dn + nb` is a multiple of 8 and `dq + q·2^dn` are the bytes in flight.  The 14 possible
+    `(dn, nb)` pairs are enumerated; inside each everything is linear arithmetic over literals. -/
+
+theorem b91_dec_pair (dq dn a : Nat) (rest : List Nat) :
+    b91DecLoop dq dn none ((a % 91) :: (a / 91) :: rest)
+      = bytesLE ((dn + (if a % 8192 > 88 then 13 else 14)) / 8) (dq + a * 2 ^ dn)
+        ++ b91DecLoop ((dq + a * 2 ^ dn) / 256 ^ ((dn + (if a % 8192 > 88 then 13 else 14)) / 8))
+            ((dn + (if a % 8192 > 88 then 13 else 14)) % 8) none rest := by
+  simp only [b91DecLoop, Nat.mod_add_div']
+
+theorem b91_enc_cons (q nb x : Nat) (rest : List Nat) :
+    b91EncLoop q nb (x :: rest) =
+      if nb + 8 > 13 then
+        if (q + x * 2 ^ nb) % 8192 > 88 then
+          ((q + x * 2 ^ nb) % 8192 % 91) :: ((q + x * 2 ^ nb) % 8192 / 91) :: b91EncLoop ((q + x * 2 ^ nb) / 8192) (nb + 8 - 13) rest
+        else
+          ((q + x * 2 ^ nb) % 16384 % 91) :: ((q + x * 2 ^ nb) % 16384 / 91) :: b91EncLoop ((q + x * 2 ^ nb) / 16384) (nb + 8 - 14) rest
+      else b91EncLoop (q + x * 2 ^ nb) (nb + 8) rest := by
+  conv => lhs; unfold b91EncLoop
+
+/-- the induction hypothesis of the simulation, as a predicate on the remaining input -/
+def B91Sim (rest : List Nat) : Prop :=
+  ∀ q nb dq dn, q < 2 ^ nb → nb ≤ 13 → dq < 2 ^ dn → dn ≤ 7 → (dn + nb) % 8 = 0 →
+    b91DecLoop dq dn none (b91EncLoop q nb rest) = bytesLE ((dn + nb) / 8) (dq + q * 2 ^ dn) ++ rest
+
+/-- one input byte, for one concrete pair (dn, nb) of pending bit counts -/
+macro "b91_step" ih:ident : tactic => `(tactic| (
+  rw [b91_enc_cons]
+  simp only [Nat.reduceAdd, Nat.reduceSub, Nat.reducePow, Nat.reduceDiv, gt_iff_lt, Nat.reduceLT,
+    ↓reduceIte] at *
+  first
+  | (rw [$ih _ _ _ _ (by simp only [Nat.reducePow]; omega) (by omega) (by simp only [Nat.reducePow]; omega)
+        (by omega) (by omega)]
+     simp only [Nat.reduceAdd, Nat.reducePow, Nat.reduceDiv, bytesLE, List.cons_append,
+       List.nil_append, List.cons.injEq, and_true]
+     omega)
+  | (split
+     · rename_i h
+       rw [b91_dec_pair, Nat.mod_mod, if_pos h]
+       simp only [Nat.reduceAdd, Nat.reducePow, Nat.reduceDiv, Nat.reduceMod]
+       rw [$ih _ _ _ _ (by simp only [Nat.reducePow]; omega) (by omega) (by simp only [Nat.reducePow]; omega)
+         (by omega) (by omega)]
+       simp only [Nat.reduceAdd, Nat.reducePow, Nat.reduceDiv, Nat.reduceMod, bytesLE, List.cons_append,
+         List.nil_append, List.cons.injEq, and_true]
+       omega
+     · rename_i h
+       rw [b91_dec_pair, Nat.mod_mod_of_dvd _ (by decide : 8192 ∣ 16384), if_neg h]
+       simp only [Nat.reduceAdd, Nat.reducePow, Nat.reduceDiv, Nat.reduceMod]
+       rw [$ih _ _ _ _ (by simp only [Nat.reducePow]; omega) (by omega) (by simp only [Nat.reducePow]; omega)
+         (by omega) (by omega)]
+       simp only [Nat.reduceAdd, Nat.reducePow, Nat.reduceDiv, Nat.reduceMod, bytesLE, List.cons_append,
+         List.nil_append, List.cons.injEq, and_true]
+       omega)))
+
+set_option maxHeartbeats 1000000 in
+theorem b91_sim_cons (x : Nat) (rest : List Nat) (hx : x < 256) (ih : B91Sim rest) : B91Sim (x :: rest) := by
+  intro q nb dq dn hq hnb hdq hdn hmod
+  unfold B91Sim at ih
+  have hd : dn = 0 ∨ dn = 1 ∨ dn = 2 ∨ dn = 3 ∨ dn = 4 ∨ dn = 5 ∨ dn = 6 ∨ dn = 7 := by
+    clear hq hdq ih hmod; omega
+  rcases hd with rfl | rfl | rfl | rfl | rfl | rfl | rfl | rfl
+  · have hn : nb = 0 ∨ nb = 8 := by clear hq hdq ih; omega
+    rcases hn with rfl | rfl
+    · b91_step ih
+    · b91_step ih
+  · have hn : nb = 7 := by clear hq hdq ih; omega
+    subst hn
+    b91_step ih
+  · have hn : nb = 6 := by clear hq hdq ih; omega
+    subst hn
+    b91_step ih
+  · have hn : nb = 5 ∨ nb = 13 := by clear hq hdq ih; omega
+    rcases hn with rfl | rfl
+    · b91_step ih
+    · b91_step ih
+  · have hn : nb = 4 ∨ nb = 12 := by clear hq hdq ih; omega
+    rcases hn with rfl | rfl
+    · b91_step ih
+    · b91_step ih
+  · have hn : nb = 3 ∨ nb = 11 := by clear hq hdq ih; omega
+    rcases hn with rfl | rfl
+    · b91_step ih
+    · b91_step ih
+  · have hn : nb = 2 ∨ nb = 10 := by clear hq hdq ih; omega
+    rcases hn with rfl | rfl
+    · b91_step ih
+    · b91_step ih
+  · have hn : nb = 1 ∨ nb = 9 := by clear hq hdq ih; omega
+    rcases hn with rfl | rfl
+    · b91_step ih
+    · b91_step ih
+
+macro "b91_pair" : tactic => `(tactic| (
+  rw [b91_dec_pair]
+  split <;>
+  (simp only [Nat.reduceAdd, Nat.reducePow, Nat.reduceDiv, Nat.reduceMod, bytesLE, b91DecLoop,
+     List.cons_append, List.nil_append, List.append_nil, List.cons.injEq, and_true, reduceCtorEq,
+     and_false, false_and] at *
+   all_goals omega)))
+
+macro "b91_red" : tactic => `(tactic|
+  simp only [b91EncLoop, Nat.reduceAdd, Nat.reducePow, Nat.reduceDiv, gt_iff_lt, Nat.reduceLT,
+    Nat.lt_irrefl, false_or, true_or, ↓reduceIte] at *)
+
+macro "b91_nil0" : tactic => `(tactic| (b91_red; simp only [b91DecLoop, bytesLE, List.append_nil]))
+
+macro "b91_nil_lo" : tactic => `(tactic| (
+  b91_red
+  split
+  · b91_pair
+  · (simp only [Nat.reduceAdd, Nat.reducePow, Nat.reduceDiv, bytesLE, b91DecLoop,
+       List.cons_append, List.nil_append, List.append_nil, List.cons.injEq, and_true] at *
+     all_goals omega)))
+
+macro "b91_nil_hi" : tactic => `(tactic| (b91_red; b91_pair))
+
+set_option maxHeartbeats 1000000 in
+theorem b91_sim_nil : B91Sim [] := by
+  intro q nb dq dn hq hnb hdq hdn hmod
+  have hd : dn = 0 ∨ dn = 1 ∨ dn = 2 ∨ dn = 3 ∨ dn = 4 ∨ dn = 5 ∨ dn = 6 ∨ dn = 7 := by
+    clear hq hdq hmod; omega
+  rcases hd with rfl | rfl | rfl | rfl | rfl | rfl | rfl | rfl
+  · have hn : nb = 0 ∨ nb = 8 := by clear hq hdq; omega
+    rcases hn with rfl | rfl
+    · b91_nil0
+    · b91_nil_hi
+  · have hn : nb = 7 := by clear hq hdq; omega
+    subst hn
+    b91_nil_lo
+  · have hn : nb = 6 := by clear hq hdq; omega
+    subst hn
+    b91_nil_lo
+  · have hn : nb = 5 ∨ nb = 13 := by clear hq hdq; omega
+    rcases hn with rfl | rfl
+    · b91_nil_lo
+    · b91_nil_hi
+  · have hn : nb = 4 ∨ nb = 12 := by clear hq hdq; omega
+    rcases hn with rfl | rfl
+    · b91_nil_lo
+    · b91_nil_hi
+  · have hn : nb = 3 ∨ nb = 11 := by clear hq hdq; omega
+    rcases hn with rfl | rfl
+    · b91_nil_lo
+    · b91_nil_hi
+  · have hn : nb = 2 ∨ nb = 10 := by clear hq hdq; omega
+    rcases hn with rfl | rfl
+    · b91_nil_lo
+    · b91_nil_hi
+  · have hn : nb = 1 ∨ nb = 9 := by clear hq hdq; omega
+    rcases hn with rfl | rfl
+    · b91_nil_lo
+    · b91_nil_hi
+
+/-- **basE91 simulation**: decoding what the encoder emits from any reachable pair of states gives
+    the pending bytes followed by the remaining input. -/
+theorem b91_sim (bs : List Nat) (hb : Bytes bs) : B91Sim bs := by
+  induction bs with
+  | nil => exact b91_sim_nil
+  | cons x rest ih =>
+    exact b91_sim_cons x rest (hb x (by simp)) (ih (fun y hy => hb y (by simp [hy])))
+
+theorem b91_roundtrip (g : GoodAlpha Gen.cb91 91) (bs : List Nat) (hb : Bytes bs) :
+    b91Dec (b91Enc bs) = some bs := by
+  have hlt := b91_digits_lt bs hb 0 0 (by decide) (by decide)
+  unfold b91Dec b91Enc
+  rw [all_idx_map _ _ g _ hlt, filterMap_idx_map _ _ g _ hlt]
+  have := b91_sim bs hb 0 0 0 0 (by decide) (by decide) (by decide) (by decide) (by decide)
+  simpa [bytesLE] using this
+
 end SA.Codec
